@@ -25,6 +25,7 @@ from .core import Streams, mix, small_stack
 
 ENGINE_VERSION = 2
 SHRINK_EXEC = 3000
+SLICE_MIN_RUNS = 150
 ISOLATE = False  # execute() forks one pristine process per epoch itself
 _ADDR = re.compile(r"0x[0-9a-fA-F]+")
 RULE = ("one case = one seeded history (<=25 ops) of a simplifier node: serve a generated closed, "
